@@ -66,6 +66,9 @@ func c16Prop(nlines, nelems int) func(t *rapid.T) {
 
 // childMain runs on the main goroutine, which is locked to the main thread.
 func childMain(mode string) int {
+	if mode == "racecanary" {
+		return raceCanaryChild()
+	}
 	if mode != "c16" {
 		fmt.Println("unknown child mode", mode)
 		return 2
